@@ -99,7 +99,7 @@ theorem to_fields_get {o : Options} : ∀ (ts : Tracers) (flds : List Field), ts
 theorem to_field_nullable {o : Options} (h0 : o.overwrites = []) {t : Tracer} {g : Field} (h : t.to_field o = .ok g)
     (hn : t.nullable = true) : g.nullable = true := by
   cases t with
-  | unknown n p nl => rw [to_field_unknown_inv h0 h]; exact hn
+  | unknown n p nl => rw [to_field_unknown_inv h0 h]; rfl
   | primitive n p nl ty st =>
     rcases to_field_primitive_inv h0 h with ⟨_, rfl⟩ | ⟨_, _, ⟨_, rfl⟩ | ⟨_, rfl⟩⟩ | ⟨_, _, rfl⟩
     · rfl
